@@ -5,13 +5,19 @@ demo fails with the patch; demo passes without it. Then runs the checks of /veri
 import json, os, re, shutil, subprocess, sys, glob, tempfile, concurrent.futures
 
 SNAP = "2b0dff6"
-ENV = dict(os.environ, GOFLAGS="-mod=mod", GOPROXY="off")
+ROUND2 = "--round2" in sys.argv   # second round: agents worked on worktrees of the repaired tree (R2BASE), output in /tmp/seedout2
+R2BASE = "54253df"
+SRC = "/tmp/seedout2" if ROUND2 else "/tmp/seedout"
+BASE = R2BASE if ROUND2 else SNAP
+def sid(prop, k):
+    return f"{prop}-r2-{k}" if ROUND2 else f"{prop}-{k}"
+ENV = dict(os.environ, GOFLAGS="-mod=mod", GOPROXY="off", CGO_ENABLED="1")
 ENV.pop("GOWORK", None)
 RELATED = {  # properties whose checks are run against a seed of the given property
     "C01": ["C01", "C08"], "C02": ["C02", "C05"], "C03": ["C03", "C05", "C11"], "C04": ["C04", "C02", "C20"], "C05": ["C05", "C06"],
     "C06": ["C06", "C05"], "C07": ["C07", "C05", "C08"], "C08": ["C08", "C07"], "C09": ["C09", "C08"], "C10": ["C10", "C12", "C03"],
     "C11": ["C11", "C03"], "C12": ["C12", "C10"], "C13": ["C13", "C12", "C03"], "C14": ["C14"], "C15": ["C15"], "C16": ["C16", "C10", "C03"],
-    "C17": ["C17", "C09"], "C19": ["C19", "C08"], "C20": ["C20", "C04", "C01"],
+    "C17": ["C17", "C09"], "C18": ["C18", "C08"], "C19": ["C19", "C08"], "C20": ["C20", "C04", "C01"],
 }
 
 def sh(cmd, cwd, timeout=900):
@@ -19,19 +25,19 @@ def sh(cmd, cwd, timeout=900):
     return p.returncode, p.stdout
 
 def confirm(prop, k):
-    src = f"/tmp/seedout/{prop}/{k}"
+    src = f"{SRC}/{prop}/{k}"
     patch = f"{src}/patch.diff"
     if not os.path.exists(patch):
         return None
     meta = json.load(open(f"{src}/meta.json")) if os.path.exists(f"{src}/meta.json") else {}
     wt = tempfile.mkdtemp(prefix="seedconf-", dir="/tmp")
     os.rmdir(wt)
-    res = {"property": prop, "seed": f"{prop}-{k}", "agent_summary": meta.get("summary", ""), "needs_to_manifest": meta.get("needs_to_manifest", ""),
+    res = {"property": prop, "seed": sid(prop, k), "round": 2 if ROUND2 else 1, "base_commit": BASE, "agent_summary": meta.get("summary", ""), "needs_to_manifest": meta.get("needs_to_manifest", ""),
            "files_touched": meta.get("files_touched", []), "confirmed": {}, "ran": []}
     try:
-        rc, out = sh(f"git -C /repo worktree add -q --detach {wt} {SNAP}", "/")
+        rc, out = sh(f"git -C /repo worktree add -q --detach {wt} {BASE}", "/")
         if rc: res["confirmed"]["error"] = out; return res
-        rc, out = sh(f"git apply {patch}", wt); res["confirmed"]["applies_to_snapshot"] = rc == 0; res["ran"].append("git apply patch.diff (pinned snapshot)")
+        rc, out = sh(f"git apply {patch}", wt); res["confirmed"]["applies_to_snapshot"] = rc == 0; res["ran"].append(f"git apply patch.diff (worktree of {BASE})")
         if rc: return res
         rc, out = sh("go build ./... && go vet ./...", wt); res["confirmed"]["build_vet"] = rc == 0; res["ran"].append("go build ./... && go vet ./...")
         rc, out = sh("go test -count=1 ./...", wt); res["confirmed"]["suite_green_with_patch"] = rc == 0; res["ran"].append("go test -count=1 ./...")
@@ -45,7 +51,7 @@ def confirm(prop, k):
             shutil.copy(d, os.path.join(wt, dest, os.path.basename(d)))
             pkgs.add("./cli" if dest == "cli" else ".")
             pats += re.findall(r"^func (Test\w+)\(", txt, re.M)
-        race = "-race " if prop == "C06" else ""
+        race = "-race " if prop == "C06" or ROUND2 else ""
         demo_cmd = f"go test {race}-count=1 -run '^({'|'.join(pats)})$' {' '.join(sorted(pkgs))}"
         res["demo_cmd"] = demo_cmd
         rc, out = sh(demo_cmd, wt, 1200); res["confirmed"]["demo_fails_with_patch"] = rc != 0; res["ran"].append(demo_cmd + "  (patched: expected to fail)")
@@ -58,17 +64,17 @@ def confirm(prop, k):
 
 def detect(prop, k):
     """runs the checks against the patched tree: /repo HEAD if the patch applies there, else a worktree of the snapshot"""
-    patch = f"/verif/seeded/{prop}-{k}/patch.diff"
+    patch = f"/verif/seeded/{sid(prop, k)}/patch.diff"
     if not os.path.exists(patch):
-        patch = f"/tmp/seedout/{prop}/{k}/patch.diff"
+        patch = f"{SRC}/{prop}/{k}/patch.diff"
     wt = tempfile.mkdtemp(prefix="seeddet-", dir="/tmp"); os.rmdir(wt)
     base = "HEAD"
     rc, _ = sh(f"git -C /repo worktree add -q --detach {wt} HEAD", "/")
     rc, _ = sh(f"git apply {patch}", wt)
     if rc:
         sh(f"git -C /repo worktree remove --force {wt}", "/")
-        sh(f"git -C /repo worktree add -q --detach {wt} {SNAP}", "/")
-        base = SNAP
+        sh(f"git -C /repo worktree add -q --detach {wt} {BASE}", "/")
+        base = BASE
         rc, _ = sh(f"git apply {patch}", wt)
     found = {}
     try:
@@ -88,19 +94,21 @@ def detect(prop, k):
 
 def main():
     seeds = []
-    for d in sorted(glob.glob("/tmp/seedout/C*/[0-9]")):
+    for d in sorted(glob.glob(SRC + "/C*/[0-9]")):
         parts = d.split("/")
         seeds.append((parts[3], parts[4]))
-    for d in sorted(glob.glob("/verif/seeded/C*-[0-9]*")):
-        prop, k = os.path.basename(d).split("-")
+    for d in sorted(glob.glob("/verif/seeded/C*")):
+        m = re.match(r"^(C\d\d)-(r2-)?(\d+)$", os.path.basename(d))
+        if not m or bool(m.group(2)) != ROUND2: continue
+        prop, k = m.group(1), m.group(3)
         if (prop, k) not in seeds:
             seeds.append((prop, k))
     only = [a for a in sys.argv[1:] if not a.startswith("--")]
     if only:
-        seeds = [s for s in seeds if f"{s[0]}-{s[1]}" in only or s[0] in only]
+        seeds = [s for s in seeds if sid(*s) in only or s[0] in only]
     def conf(s):
         # already confirmed and filed: only refresh the detection record
-        mp = f"/verif/seeded/{s[0]}-{s[1]}/meta.json"
+        mp = f"/verif/seeded/{sid(*s)}/meta.json"
         if os.path.exists(mp) and "--reconfirm" not in sys.argv:
             return json.load(open(mp))
         return confirm(*s)
@@ -118,11 +126,11 @@ def main():
         res["detected"] = bool(rules)
         res["detected_by_rules"] = rules
         res["findings"] = {p: [h[:400] for h in hits] for p, hits in found.items() if hits}
-        out = f"/verif/seeded/{prop}-{k}"
+        out = f"/verif/seeded/{sid(prop, k)}"
         os.makedirs(out + "/demo", exist_ok=True)
-        if os.path.exists(f"/tmp/seedout/{prop}/{k}/patch.diff"):
-            shutil.copy(f"/tmp/seedout/{prop}/{k}/patch.diff", out + "/patch.diff")
-            for d in glob.glob(f"/tmp/seedout/{prop}/{k}/demo/*"):
+        if os.path.exists(f"{SRC}/{prop}/{k}/patch.diff"):
+            shutil.copy(f"{SRC}/{prop}/{k}/patch.diff", out + "/patch.diff")
+            for d in glob.glob(f"{SRC}/{prop}/{k}/demo/*"):
                 if os.path.isfile(d): shutil.copy(d, out + "/demo/")
         json.dump(res, open(out + "/meta.json", "w"), indent=1)
         print("   detected by:", rules or "NOTHING", flush=True)
